@@ -208,6 +208,11 @@ def run(ctx):
         for c in cli:
             for g in c["groups"]:
                 count[tuple(g)] = count.get(tuple(g), 0) + 1
+        # the options that only act on a categorical score (-b, -r) are always also tried together with -m ets
+        for c in full:
+            gs = [tuple(g) for g in c["groups"]]
+            if ("-m", "ets") in gs and any(g[0] in ("-b", "-r") for g in gs) and c not in cli:
+                cli.append(c)
         for c in full:
             need = [g for g in c["groups"] if count.get(tuple(g), 0) < 3]
             if need and c not in cli:
